@@ -1183,6 +1183,19 @@ def check(ck):
     def classify_merge(a0, at, key, shown):
         """a mapping poured into the result: names zipped with values (positional binding) or keyword arguments"""
         a0 = strip_cast(a0)
+        for _ in range(4):
+            # a stage of its own (`from_args = dict(zip(names, values))`, then `{**bound, **from_args}`): the local is read as
+            # what it was made as — one expression that builds a mapping, or a plain copy of another mapping
+            d0 = single_def(bfa, a0.id, at) if isinstance(a0, ast.Name) else None
+            v0 = strip_cast(d0.value) if d0 is not None else None
+            if v0 is None or any(same_def(d0, d_) for d_ in chain):
+                break
+            if isinstance(v0, ast.DictComp) or (isinstance(v0, ast.Call) and A.call_attr(v0) in ("dict", "zip")):
+                a0 = v0
+                break
+            if is_copy_of(v0) is None:
+                break
+            a0 = strip_cast(is_copy_of(v0))
         if isinstance(a0, ast.Call) and A.call_attr(a0) == "dict" and len(a0.args) == 1 and not a0.keywords:
             a0 = strip_cast(a0.args[0])
         comp_ = a0 if isinstance(a0, ast.DictComp) and len(a0.generators) == 1 and not a0.generators[0].ifs else None
